@@ -168,11 +168,12 @@ Proof.
     destruct (caseInsensitiveCompare strContentLength key) eqn:Ecl.
     { unfold parseContentLength in E. destruct (ParseUint 64 v) as [n|e] eqn:Ep; cbn [pres_opt] in E; injection E as <-; [|exact Hi].
       destruct (parse_ok_is_value 64 v n (or_intror eq_refl) Hwf Ep) as (_ & Hd & Hv & _).
-      hi. split; [exact H1|]. split; [exact H2|]. split; [exact H3|]. intros _. split; [exact Hd|]. intros _. now rewrite Hv. }
+      hi. split; [exact H1|]. split; [now apply delAll_keys_ok|]. split; [exact H3|]. intros _. split; [exact Hd|]. intros _. now rewrite Hv. }
     destruct (caseInsensitiveCompare strContentEncoding key).
     { injection E as <-. unfold RSetContentEncodingBytes. hi. exact Hi. }
     destruct (caseInsensitiveCompare strConnection key) eqn:Eco; [|discriminate].
-    destruct (beq strClose v).
+    (* whatever test decides that the value asks for "close" *)
+    match type of E with context [if ?b then _ else _] => destruct b end.
     { injection E as <-. unfold hSetConnectionClose. hi. split; [exact H1|]. split; [now apply delAll_keys_ok|]. split; [exact H3|exact H4]. }
     injection E as <-. unfold hsetNonSpecial, hResetConnectionClose.
     assert (Hk : key_ok (key, v)).
